@@ -54,7 +54,8 @@ def run(out: Outcome, drv):
     n = 250 if out.tier == "quick" else 1500
     out.rule = ("PandasStream runs over generated tables whose stream ids include characters illegal in CF names (dash, dot, space, "
                 "slash, leading digit / underscore, non-ASCII) and configs of 1..3 contexts / 1..3 tests; PandasStore.save with all four "
-                "write_data / write_axes combinations and include / exclude lists over stream ids, test names and function objects; "
+                "write_data / write_axes combinations and include / exclude lists over stream ids, test names and function objects, every "
+                "other store asked a second time with other arguments; "
                 "frame compared as a set of (column name, content) by IoosQc.C19.holds; compute_aggregate roll-up compared with the "
                 "aggregate of all test columns; cf_safe_name on a name corpus; non-trivial = a filter or an unsafe stream id is involved")
     rng = gen.rng_for(out.seed, "C19")
@@ -69,7 +70,9 @@ def run(out: Outcome, drv):
     for it in range(n):
         k = rng.randint(1, 3)
         sids = rng.sample(STREAM_IDS, k)
-        if rng.random() < 0.85:
+        if it == 0:
+            sids = ["x-1", "x.1"]          # the class of known finding F-18, always present
+        elif rng.random() < 0.85:
             # avoid pairs whose safe names collide (those are the class of known finding F-18)
             seen, keep = set(), []
             for s in sids:
@@ -78,8 +81,13 @@ def run(out: Outcome, drv):
                     seen.add(cf_safe_name(s))
             sids = keep
         tab = sc.gen_table(rng, 8, streams=tuple(sids), index_kind="range")
+        while it == 0 and tab["n"] == 0:
+            tab = sc.gen_table(rng, 8, streams=tuple(sids), index_kind="range")
         tests = [t for t in sc.usable_tests(tab) if t not in ("probe",)]
         ctxs = sc.gen_config(rng, tab, tests=tests)
+        if it == 0:
+            ctxs = [{"window": [None, None], "streams": {sid: [("gross", "qartod", "gross_range_test", {"fail_span": [0, 30]})]
+                                                         for sid in sids}}]
         cfg = sc.config_dict(ctxs)
         with warnings.catch_warnings():
             warnings.simplefilter("ignore")
@@ -124,10 +132,35 @@ def run(out: Outcome, drv):
             continue
         reqs.append({"kind": "c19", "write_data": write_data, "write_axes": write_axes, "include": case["include"],
                      "exclude": case["exclude"], "results": wired, "obs": obs})
+        second = None
+        if it % 2 == 0:
+            # the same store asked again with other arguments: the second frame obeys the second request, and the first
+            # frame is still what it was
+            wd2, wa2 = rng.random() < 0.5, rng.random() < 0.7
+            inc2, exc2 = pick(), pick()
+            case2 = dict(case, write_data=wd2, write_axes=wa2, include=wire_list(inc2), exclude=wire_list(exc2),
+                         earlier_save_on_same_store={k: case[k] for k in ("write_data", "write_axes", "include", "exclude")})
+            try:
+                with warnings.catch_warnings():
+                    warnings.simplefilter("ignore")
+                    df2 = store.save(write_data=wd2, write_axes=wa2, include=inc2, exclude=exc2)
+                obs2 = frame_cols(df2, intern)
+                rows_ok2 = len(df2) == tab["n"] or (len(df2.columns) == 0)
+                if frame_cols(df, intern) != obs:
+                    out.violation(f"{WHAT}: the frame returned by the first save changed when save was called again",
+                                  {"case": jsonable(case2), "observed_first_before": obs, "observed_first_after": frame_cols(df, intern)})
+                second = (case2, obs2, rows_ok2)
+            except Exception as e:  # noqa: BLE001
+                out.violation(f"{WHAT}: second PandasStore.save raised {type(e).__name__}: {e}", {"case": jsonable(case2)})
         # roll-up
         store.compute_aggregate()
         roll = store.collected_results[-1]
         meta.append((case, obs, rows_ok, wired, crs, roll))
+        if second is not None:
+            case2, obs2, rows_ok2 = second
+            reqs.append({"kind": "c19", "write_data": case2["write_data"], "write_axes": case2["write_axes"], "include": case2["include"],
+                         "exclude": case2["exclude"], "results": wired, "obs": obs2})
+            meta.append((case2, obs2, rows_ok2, wired, crs, roll))
     ans = drv.run(reqs)
     agg_reqs = []
     for (case, obs, rows_ok, wired, crs, roll), a in zip(meta, ans):
